@@ -128,4 +128,10 @@ theorem rpfc_iterator_models_match_source_text :
     Generated.body_RPFCIter_next = SourceText.body_RPFCIter_next ∧
     Generated.body_RPFCIter_decodeNext = SourceText.body_RPFCIter_decodeNext := ⟨rfl, rfl, rfl, rfl⟩
 
+/-- The FMINDEX iterator model was written against the current text of the C++ functions it mirrors. -/
+theorem fm_iterator_models_match_source_text :
+    Generated.body_FMINDEX_extractTable = SourceText.body_FMINDEX_extractTable ∧
+    Generated.body_FMIter_next = SourceText.body_FMIter_next ∧
+    Generated.body_FMIterDup_next = SourceText.body_FMIterDup_next := ⟨rfl, rfl, rfl⟩
+
 end CSD.Props.C13
